@@ -133,5 +133,7 @@ void harness (void)
   XV_ASSERT ("C06,C02", j >= 28 || is_b64 (out[n - 28 + j]), "28 digest characters from ./0-9A-Za-z (arbitrary index)");
   XV_ASSERT ("C09", scr_size >= 20 && xv_bzero_n == 1 && xv_bzeroed_after (scr, scr_size, 0), "the scratch area is erased over its whole size");
   if (sl > 64) XV_CANARY ("salt longer than CRYPT_SHA1_SALT_LENGTH");
+#ifdef XV_BIGDEC   /* cases with an 11..20-digit field (thorough tier) */
   if (pd > 10) XV_CANARY ("iteration count of more than 10 digits");
+#endif
 }
